@@ -242,6 +242,14 @@ DulIO(n) ==
           ELSE /\ nd' = [nd EXCEPT ![n] = [r1 EXCEPT !.dpc = "ev"]]
                /\ UNCHANGED <<wire, weof, npeer, ntick>>
 
+\* Events raised by the local user's primitives (A-ASSOCIATE response 7/8, P-DATA 9, A-RELEASE request 11 / response 14, A-ABORT 15)
+\* and by the ARTIM timer (18).  As found, such an event reaching the provider in a state where Table 9-10 does not define it
+\* kills the provider thread (InvalidEventError) - the code as found, DiscardUndefinedLocal = FALSE.  TRUE is the repair
+\* proposed in /verif/proposed (the provider discards the event and its primitive): a configuration sets
+\* DiscardUndefinedLocal <- ...  to check it; it is not applied because test_fsm.py waits for the thread to die.
+LocalEvents == {7, 8, 9, 11, 14, 15, 18}
+DiscardUndefinedLocal == FALSE
+
 \* One event half iteration: pop at most one event and run its action
 DulEvent(n) ==
   LET r == nd[n] IN
@@ -252,10 +260,15 @@ DulEvent(n) ==
      ELSE LET e  == Head(r.evq)
               r0 == [r EXCEPT !.evq = Tail(@)] IN
           IF ~Defined(e, r.st)
-          THEN \* InvalidEventError propagates out of run_reactor: the provider thread dies
-               /\ nd' = [nd EXCEPT ![n] = [r0 EXCEPT !.dpc = "dead", !.dalive = FALSE,
-                                                    !.crash = <<Role[n], e, r.st>>]]
-               /\ UNCHANGED <<wire, weof, npeer, ntick>>
+          THEN IF DiscardUndefinedLocal /\ e \in LocalEvents
+               THEN \* (proposed C05 repair) an event raised by a local primitive or by the ARTIM timer that is not defined in the
+                    \* current state is discarded together with its primitive; the loop goes on
+                    /\ nd' = [nd EXCEPT ![n] = [r0 EXCEPT !.provq = IF e # 18 /\ r0.provq # <<>> THEN Tail(@) ELSE @, !.dpc = "top"]]
+                    /\ UNCHANGED <<wire, weof, npeer, ntick>>
+               ELSE \* InvalidEventError propagates out of run_reactor: the provider thread dies
+                    /\ nd' = [nd EXCEPT ![n] = [r0 EXCEPT !.dpc = "dead", !.dalive = FALSE,
+                                                         !.crash = <<Role[n], e, r.st>>]]
+                    /\ UNCHANGED <<wire, weof, npeer, ntick>>
           ELSE LET a == Tbl(e, r.st) IN
                IF a = "AE-1"
                THEN \* transport connect: succeeds or is refused (environment)
